@@ -116,7 +116,8 @@ def neighbour_decoder():
     """another server in the same process whose application registered its own request classes on ITS decoder"""
     from pymodbus.factory import ServerDecoder
     if not _NEIGHBOUR_REQUESTS:
-        for cls in list(getattr(ServerDecoder, '_ServerDecoder__function_table')) + list(getattr(ServerDecoder, '_ServerDecoder__sub_function_table')):
+        from harness import framers as _fr
+        for cls in _fr.standard_classes(ServerDecoder):
             ns = dict(execute=lambda self, context: self.doException(0x0B), __doc__='neighbour variant')
             _NEIGHBOUR_REQUESTS.append(type('Neighbour' + cls.__name__, (cls,), ns))
     d = ServerDecoder()
